@@ -159,8 +159,9 @@ def run(pid, tier, seed, repo, workers=0, only=None):
                 except BaseException:
                     ok = False
                 if ok:
-                    v = dict(v, case=shard_case, note=(v.get('note') or '') + '\n[the case alone passes in a fresh process; it fails, reproducibly, '
-                             'after the cases explored before it in its shard: the outcome depends on calls made earlier in the process]')
+                    v = dict(v, case=shard_case, note=(v.get('note') or '') + '\n[the single-case replay of the check passes in a fresh process; the violation is reproduced, twice, by '
+                             're-running the shard it was seen in: the outcome depends on calls made earlier in the process (or the '
+                             'single-case replay does not evaluate this clause)]')
                     res.violations[full] = v
             if not ok:
                 res.error(f'witness of {full} does not replay deterministically: {s1} / {s2}')
